@@ -1,7 +1,7 @@
 //! MEM domain: peak live heap bytes (counting global allocator) while the real server receives a request body /
 //! sends a response body of a given length. Bodies are generated and discarded on the fly on the client side.
 //!
-//!   MEM dir=<req|reqdrain|resp> framing=<cl|chunked|auto> n=<bytes> [ver=0]      (ver=0: an HTTP/1.0 request line)
+//!   MEM dir=<req|reqdrain|resp> framing=<cl|chunked|auto> n=<bytes> [ver=0] [csize=<chunk size> ext=<0|1>]     (ver=0: an HTTP/1.0 request line)
 //! Output: `M peak=<bytes above the level at the start of the transfer> ok=<0|1> n=<bytes seen by the other side>`
 use crate::{LIVE_BYTES, PEAK_BYTES};
 use khttp::{Headers, Method, Server};
@@ -27,8 +27,12 @@ pub fn mem(arg: &str) -> String {
     let mut n: u64 = 1024;
     let mut ver = "1.1";
     let mut piece = 0usize;
+    let mut csize = 16384usize;
+    let mut ext = false;
     for w in arg.split_whitespace() {
         if let Some(v) = w.strip_prefix("piece=") { piece = v.parse().unwrap_or(0) }
+        if let Some(v) = w.strip_prefix("csize=") { csize = v.parse::<usize>().unwrap_or(16384).clamp(1, 16384) }
+        if let Some(v) = w.strip_prefix("ext=") { ext = v == "1" }
         if let Some(v) = w.strip_prefix("ver=") { ver = if v == "0" { "1.0" } else { "1.1" } }
         if let Some(v) = w.strip_prefix("dir=") { dir = v }
         if let Some(v) = w.strip_prefix("framing=") { framing = v }
@@ -88,9 +92,10 @@ pub fn mem(arg: &str) -> String {
         let block = [b'x'; 16384];
         let mut left = n;
         while left > 0 {
-            let k = left.min(block.len() as u64) as usize;
+            let k = left.min(if framing == "chunked" { csize } else { block.len() } as u64) as usize;
             if framing == "chunked" {
-                let _ = client.write_all(format!("{:x}\r\n", k).as_bytes());
+                // `ext=1`: every chunk carries a chunk extension (aws-chunked style signature); `csize`: many small chunks
+                let _ = client.write_all(if ext { format!("{:x};chunk-signature=0123456789abcdef0123456789abcdef\r\n", k) } else { format!("{:x}\r\n", k) }.as_bytes());
                 let _ = client.write_all(&block[..k]);
                 let _ = client.write_all(b"\r\n");
             } else {
